@@ -11,12 +11,12 @@ Definition declared_bounds (no_deps : bool) (s : sig) : list toks :=
   | DGeneric None b => b
   | DGeneric (Some name) _ =>
       flat_map (fun p => match gp_kind p with
-                         | GType => if String.eqb (gp_name p) name then trait_bounds (gp_bounds p) else []
+                         | GType => if String.eqb (gp_name p) name then trait_bounds (life_names (s_gen s)) (gp_bounds p) else []
                          | _ => []
                          end) (p_items (g_params (s_gen s))) ++
       flat_map (fun w => if wp_is_type w then
                            match wp_bounded w with
-                           | BPath false false 1 first => if String.eqb first name then pred_bounds w else []
+                           | BPath false false 1 first => if String.eqb first name then pred_bounds (life_names (s_gen s)) w else []
                            | _ => []
                            end
                          else []) (where_items (s_gen s))
@@ -165,10 +165,14 @@ Definition view_C06_gen (want_target : bool) (c : ctx) (items : list item) : vie
             let ca := has_async (map snd (trait_sigs t)) in
             decided (toks_eqb (i_self im) impl_path_toks &&
                      toks_eqb (app_param_toks (i_gen im)) (expected_impl_t false) &&
+                     (* the whole parameter list of the impl: the trait's lifetimes, the application, the trait's other
+                        parameters without their defaults *)
+                     toks_list_eqb (map print_gparam (p_items (g_params (i_gen im))))
+                                   (map print_gparam (trait_impl_params (p_items (g_params (t_gen t))))) &&
                      toks_eqb (first_where_toks (i_gen im)) (c06_bound a ca (t_name t) (t_gen t)) &&
                      toks_eqb (match i_trait im with Some x => x | None => [] end) ([TId (t_name t)] ++ trait_args (t_gen t)) &&
                      only_impl_fns im && c06_methods a ca (trait_sigs t) (impl_fns im))
-                    ([first_where_toks (i_gen im)] ++ map (fun '(_, _, b) => b) (impl_fns im))
+                    ([first_where_toks (i_gen im)] ++ map print_gparam (p_items (g_params (i_gen im))) ++ map (fun '(_, _, b) => b) (impl_fns im))
           else na
       | None => na
       end
